@@ -90,8 +90,13 @@ def seed():
 ADDR_RE = re.compile(r"0x[0-9a-f]+")
 
 
+ADDR_DAMAGED_RE = re.compile(r"@ \[MEMADDR\][0-9A-Za-z]*>")
+
+
 def norm(text):
-    return ADDR_RE.sub("[MEMADDR]", text)
+    # an address inside a printed value; if the text went through replace() or the like afterwards, the tail of the
+    # address may no longer be hexadecimal: mask up to the closing '>' of the value
+    return ADDR_DAMAGED_RE.sub("@ [MEMADDR]>", ADDR_RE.sub("[MEMADDR]", text))
 
 
 # ----------------------------------------------------------------------------- build
